@@ -432,6 +432,8 @@ def run(tier, seed, replay=None):
         size = [0.5, 1.0, 1.0, 1.6][i % 4] if i % 25 else 3.0
         if i % 8 == 5:
             prog, f = G.logic_program(C.Rng(r.next()))           # and/or with one constant operand and an impure one
+        elif i % 16 == 3:
+            prog, f = G.flow_program(C.Rng(r.next()))            # control reaching / not reaching the end of a procedure
         elif i % 4 == 1:
             prog, f = G.callshape_program(C.Rng(r.next()))       # calling-convention boundary stream
         else:
